@@ -63,6 +63,7 @@ class C03:
         self.seen_src = set()
         self.matrix = {}
         self.reject_kinds = {}
+        self.reject_examples = {}
         self.vc_stats = {"programs_in_fragment": 0, "programs_outside_fragment": 0, "vcs": 0, "invalid": 0, "unknown": 0,
                          "invalid_kinds": {}}
         self.incomplete = []      # reject(exo) /\ all VCs valid
@@ -79,12 +80,14 @@ class C03:
         if h in self.seen_src:
             return
         self.seen_src.add(h)
-        mod, err = progen.load_module(src, "c03")
+        mod, err = c03_gen.load_module(src, "c03")
         accepted = mod is not None and hasattr(mod, "foo")
         ir = mod.foo._loopir_proc if accepted else None
         if not accepted:
             rk = classify_reject(err or "no foo")
             self.reject_kinds[rk] = self.reject_kinds.get(rk, 0) + 1
+            if rk not in self.reject_examples:
+                self.reject_examples[rk] = {"error": (err or "")[:300], "src": src[len(progen.HEADER):][:500]}
             if rk in ("SyntaxError", "NameError", "AttributeError", "IndentationError"):
                 ck.case(stream, h, False, None, "generator-slip:" + rk)
                 return
@@ -166,7 +169,7 @@ class C03:
         API.CheckBounds = lambda p: None
         API.Check_Aliasing = lambda p: None
         try:
-            mod, err = progen.load_module(src, "c03u")
+            mod, err = c03_gen.load_module(src, "c03u")
         finally:
             API.CheckBounds, API.Check_Aliasing = saved
         if mod is None or not hasattr(mod, "foo"):
@@ -337,6 +340,7 @@ def run(ck):
     st = c.runner.stats
     ck.cov["accept_reject_matrix"] = {"%s/%s" % k: v for k, v in sorted(c.matrix.items())}
     ck.cov["reject_kinds"] = c.reject_kinds
+    ck.cov["reject_examples"] = c.reject_examples
     ck.cov["vc_stats"] = c.vc_stats
     ck.cov["z3"] = {"calls": c.z3.calls, "unknown": c.z3.unknown}
     n_rej = sum(v for k, v in c.matrix.items() if k[0] == "reject" and k[1] != "outside-fragment")
